@@ -278,9 +278,9 @@ class Trialer:
                 # the code already absorbs in normal operation (e.g. pm.logp of a parameter that has no density)
                 probes["fault_absorbed_without_any_effect_on_the_result"] = probes.get("fault_absorbed_without_any_effect_on_the_result", 0) + 1
             else:
-                v.append(Violation(PROPERTY, "C13.propagation", sig + ":fault-swallowed:" + (site[1] + "->" + site[3] if site else label), "fault %s at %s did not reach the caller: it returned %s, which differs from the fault-free result" % (label, where, str(capture(returned))[:120])))
+                v.append(Violation(PROPERTY, "C13.propagation", sig + ":fault-swallowed:" + (site[0] + ":" + site[1] + "->" + site[3] if site else label), "fault %s at %s did not reach the caller: it returned %s, which differs from the fault-free result" % (label, where, str(capture(returned))[:120])))
         elif not in_chain(err_or_none, injected, marker):
-            v.append(Violation(PROPERTY, "C13.propagation", sig + ":fault-replaced-by-unrelated-exception:" + (site[1] + "->" + site[3] if site else label), "fault %s at %s surfaced as %s without the injected error on its chain" % (label, where, exc_chain(err_or_none))))
+            v.append(Violation(PROPERTY, "C13.propagation", sig + ":fault-replaced-by-unrelated-exception:" + (site[0] + ":" + site[1] + "->" + site[3] if site else label), "fault %s at %s surfaced as %s without the injected error on its chain" % (label, where, exc_chain(err_or_none))))
         else:
             if err_or_none is not injected:
                 probes["fault_surfaced_wrapped_or_converted"] = probes.get("fault_surfaced_wrapped_or_converted", 0) + 1
@@ -288,7 +288,7 @@ class Trialer:
         left = [n for n in self.tmp_names if os.path.exists(n)]
         new = self._listing() - self.listing0
         if (left or new) and not waive_leak:
-            v.append(Violation(PROPERTY, "C13.leak", sig + ":cache-file-left-behind:" + (site[1] + "->" + site[3] if site else label), "after fault %s at %s: %d temp file(s) still exist (%s)" % (label, where, len(set(left) | new), [os.path.basename(x) for x in list(set(left) | new)][:3])))
+            v.append(Violation(PROPERTY, "C13.leak", sig + ":cache-file-left-behind:" + (site[0] + ":" + site[1] + "->" + site[3] if site else label), "after fault %s at %s: %d temp file(s) still exist (%s)" % (label, where, len(set(left) | new), [os.path.basename(x) for x in list(set(left) | new)][:3])))
         elif left or new:
             probes["cleanup_site_waiver_used"] = probes.get("cleanup_site_waiver_used", 0) + 1
         for n in set(left) | new:
@@ -301,7 +301,7 @@ class Trialer:
         if self.user_file:
             now = _sha(self.user_file) if os.path.exists(self.user_file) else None
             if now != self.user_sha:
-                v.append(Violation(PROPERTY, "C13.user-file", sig + ":user-file-modified:" + (site[1] + "->" + site[3] if site else label), "after fault %s at %s: %s -> %s" % (label, where, self.user_sha, now)))
+                v.append(Violation(PROPERTY, "C13.user-file", sig + ":user-file-modified:" + (site[0] + ":" + site[1] + "->" + site[3] if site else label), "after fault %s at %s: %s -> %s" % (label, where, self.user_sha, now)))
                 self.w.libraries[0].write(self.user_file)
                 self.user_sha = _sha(self.user_file)
         # 4 next call on the same object == fresh twin with a clone of the generator
@@ -333,7 +333,7 @@ class Trialer:
             b, eb = None, exc_chain(e)
         why = c10._same_output({"raised": ea, "out": a}, {"raised": eb, "out": b})
         if why or ea is not None:
-            v.append(Violation(PROPERTY, "C13.next-call", sig + ":next-call-on-same-object-wrong:" + (site[1] + "->" + site[3] if site else label), "after fault %s at %s the repeated call gives %s" % (label, where, why or ea)))
+            v.append(Violation(PROPERTY, "C13.next-call", sig + ":next-call-on-same-object-wrong:" + (site[0] + ":" + site[1] + "->" + site[3] if site else label), "after fault %s at %s the repeated call gives %s" % (label, where, why or ea)))
         left = [n for n in self.tmp_names if os.path.exists(n)]
         if left:
             v.append(Violation(PROPERTY, "C13.leak", sig + ":cache-file-left-behind-after-normal-call", str(left[:3])))
